@@ -148,6 +148,12 @@ fn long_list(pattern: u32, n: usize) -> Vec<SEntry> {
                 id += u64::from(run.max(1)) + [0u64, 1, 1 << 20, 1 << 33][i % 4];
                 off = o + u64::from(len);
             }
+            // perfectly regular (compresses far below one byte per entry)
+            3 => {
+                v.push(SEntry::new(id, off, 64, 1));
+                id += 1;
+                off += 64;
+            }
             // leaf pointers only
             _ => {
                 let len = 100 + (i as u32 % 17);
@@ -163,7 +169,7 @@ fn long_list(pattern: u32, n: usize) -> Vec<SEntry> {
 pub fn run(tier: &str) -> i32 {
     let rep = Report::new("C05", tier, "exploration");
     let thorough = rep.thorough();
-    rep.rule("all valid entry lists of length 0..2 over boundary alphabets (delta-id {0*,1,2,127,128,2^32,2^56}, run {0,1,2,127,128,2^32-1}, len {1,127,128,2^32-1}, offset {0,1,contig,contig+-1,2^32,2^62}), all lists of length 3 over a reduced alphabet, parametric long lists; x compressions x sync/async; non-trivial = list with >=1 entry; distinct = distinct lists");
+    rep.rule("all valid entry lists of length 0..2 over boundary alphabets (delta-id {0*,1,2,127,128,2^32,2^56}, run {0,1,2,127,128,2^32-1}, len {1,127,128,2^32-1}, offset {0,1,contig,contig+-1,2^32,2^62}), all lists of length 3 over a reduced alphabet, parametric long lists (four families incl. a perfectly regular one); sequences 'refused directory, failing sink, then valid directory' on one thread; x compressions x sync/async; non-trivial = list with >=1 entry; distinct = distinct lists");
     rep.assume("lists longer than 3 entries are covered only by the three parametric families");
     rep.assume("spec encoder/decoder in harness/src/spec/dir.rs is the trusted reference");
 
@@ -245,7 +251,7 @@ pub fn run(tier: &str) -> i32 {
         ns.push(100_000);
     }
     let mut jobs = Vec::new();
-    for p in 0..3u32 {
+    for p in 0..4u32 {
         for n in ns.iter() {
             for c in COMPS {
                 // brotli-11 on big lists is slow: quick keeps it to n <= 1000
@@ -272,6 +278,56 @@ pub fn run(tier: &str) -> i32 {
         for (k, d) in b {
             rep.violation(k, d, json!({"kind":"long","pattern":p,"n":n,"comp":cname(c)}));
         }
+    }
+
+    // ---- call sequences: a refused or failed serialisation must not influence the next one
+    {
+        struct FailingSink(usize);
+        impl std::io::Write for FailingSink {
+            fn write(&mut self, b: &[u8]) -> std::io::Result<usize> {
+                if self.0 == 0 {
+                    return Err(std::io::Error::new(std::io::ErrorKind::Other, "sink full"));
+                }
+                let n = b.len().min(self.0);
+                self.0 -= n;
+                Ok(n)
+            }
+            fn flush(&mut self) -> std::io::Result<()> {
+                Ok(())
+            }
+        }
+        let valid: Vec<Vec<SEntry>> = vec![vec![], vec![firsts[3]], long_list(0, 40), long_list(1, 9), long_list(3, 5000)];
+        let mut nseq = 0u64;
+        // run on ONE thread so that any per-thread state left behind by a failure is met by the next call
+        for c in COMPS {
+            for budget in [0usize, 1, 5, 17, 100] {
+                for bad_len_at in [0usize, 1] {
+                    for v in valid.iter() {
+                        // (1) a directory with a zero-length entry is refused
+                        let mut refused = long_list(0, 3);
+                        refused[bad_len_at].length = 0;
+                        let r1 = dir_write_sync(&refused, c);
+                        let r1a = dir_write_async(&refused, c);
+                        // (2) a valid directory into a sink that fails after `budget` bytes
+                        let r2 = call(|| to_lib_dir(&long_list(1, 30)).to_writer(&mut FailingSink(budget), c));
+                        nseq += 1;
+                        if !r1.is_err() || !r1a.is_err() {
+                            rep.violation("sequence/refusal-missing", "zero-length entry accepted", json!({"kind":"sequence","comp":cname(c)}));
+                        }
+                        if r2.is_panic() {
+                            rep.violation("sequence/failing-sink-panic", r2.describe(), json!({"kind":"sequence","comp":cname(c)}));
+                        }
+                        // (3) the next serialisations are unaffected
+                        for (k, d) in check_list(v, c) {
+                            rep.violation(format!("after-failed-call/{k}"), format!("after a refused directory and a sink failing after {budget} bytes: {d}"), json!({"kind":"sequence","comp":cname(c),"budget":budget,"entries":entries_json(v)}));
+                        }
+                    }
+                }
+            }
+        }
+        rep.eval(nseq);
+        rep.nontrivial(nseq);
+        rep.count("failed_call_then_valid_call_sequences", nseq);
     }
 
     rep.force_sample(json!({"kind":"list","entries":entries_json(&[firsts[7], extensions(&[firsts[7]], false)[11]])}));
